@@ -66,6 +66,8 @@ def generate(seed, tier):
   if system == 'ignore':
     backend = 'debug'
     spec['model'] = 'lin'
+    # the base optimizer may move parameters even under a zero gradient (weight decay): ignored leaves must not move
+    spec['copt'] = g.choice(['sgd', 'momentum', 'adam', 'adagrad', 'yogi', 'adamw', 'adamw', 'adafactor_wd', 'rmsprop'])
   if isinstance(backend, list):
     spec['pad_buckets'] = 1
   sc = {'system': system, 'spec': spec, 'backend': backend, 'pop_seed': g.randint(0, 2**30), 'n_clients': n_clients,
